@@ -185,4 +185,16 @@ theorem resizeChunks_spec (cs : List Chunk) (n : Nat) :
       · rw [Int.toNat_natCast, resizeLoop_cells cs n hle, show n - (cellsOf cs).length = 0 by omega]; simp
       · rw [Int.toNat_natCast, resizeLoop_cells cs n hle]; simp; omega
 
+/-- a chunk of the colour of the last chunk is merged: the number of chunks does not change -/
+theorem pushChunk_length_merge (cs : List Chunk) (c p : Chunk) (hlast : cs.getLast? = some p)
+    (hcol : p.col = c.col) : (pushChunk cs c).length = cs.length := by
+  fun_induction pushChunk cs c with
+  | case1 c => simp at hlast
+  | case2 q c heq => rfl
+  | case3 q c hneq => simp at hlast; exact absurd (hlast ▸ hcol) hneq
+  | case4 q r rs c ih =>
+    simp only [List.length_cons]
+    rw [ih (by simpa [List.getLast?_cons_cons] using hlast) hcol]
+    rfl
+
 end CHText
